@@ -141,6 +141,7 @@ struct Options {
     long seed = 0;
     int workers = 16;
     double deadline_s = 150;       // global wall-clock budget of the exploration
+    double case_timeout_s = 60;    // watchdog: longest time a worker may spend on one case
     bool write_evidence = true;
     std::map<std::string, std::string> extra;
 };
@@ -162,6 +163,7 @@ inline Options parse_args(int argc, char **argv) {
         else if (a == "--replay") o.replay = val();
         else if (a == "--deadline") o.deadline_s = atof(val().c_str());
         else if (a == "--workers") o.workers = atoi(val().c_str());
+        else if (a == "--case-timeout") o.case_timeout_s = atof(val().c_str());
         else if (a == "--no-evidence") o.write_evidence = false;
         else if (a.rfind("--", 0) == 0) { auto k = a.substr(2); o.extra[k] = val(); }
     }
@@ -255,7 +257,7 @@ struct Run {
     // belongs to the property that owns the corpus.
     bool memory_only = false;
     static bool is_memory_report(const std::string &what) {
-        return what.rfind("AddressSanitizer", 0) == 0 || what.rfind("fatal signal", 0) == 0 || what.rfind("worker exited", 0) == 0;
+        return what.rfind("AddressSanitizer", 0) == 0 || what.rfind("fatal signal", 0) == 0 || what.rfind("worker exited", 0) == 0 || what.rfind("the operation did not return", 0) == 0;
     }
     void violation(const std::string &case_str, const std::string &what, const std::string &predicate = "") {
         if (memory_only && !is_memory_report(what)) { sh->ignored_semantic.fetch_add(1); return; }
@@ -312,11 +314,36 @@ struct Run {
             pids[p] = wid;
         };
         for (int w = 0; w < nw; ++w) spawn(w);
+        // watchdog: a worker that stays on the same case for longer than case_timeout_s does not return from the code under test
+        // (every case of every engine completes in well under a second on the unchanged tree); it is stopped and reported.
+        std::map<int, std::pair<uint64_t, double>> progress;   // wid -> (hash of the case slot, time it was first seen)
+        std::set<int> hung;
         while (!pids.empty()) {
-            int st = 0; pid_t p = wait(&st);
+            int st = 0; pid_t p = waitpid(-1, &st, WNOHANG);
+            if (p == 0) {
+                usleep(100000);
+                double now = now_s();
+                for (auto &pw : pids) {
+                    int wid = pw.second;
+                    uint64_t h = 1469598103934665603ull; for (const char *c = sh->slot[wid]; *c; ++c) { h ^= (unsigned char) *c; h *= 1099511628211ull; }
+                    h ^= sh->cur_task[wid].load() * 0x9e3779b97f4a7c15ull;
+                    auto &pr = progress[wid];
+                    if (pr.first != h) { pr = {h, now}; continue; }
+                    if (now - pr.second > opt.case_timeout_s && sh->slot[wid][0] && !hung.count(wid)) { hung.insert(wid); kill(pw.first, SIGTERM); }
+                }
+                continue;
+            }
             if (p < 0) { if (errno == EINTR) continue; break; }
             auto it = pids.find(p); if (it == pids.end()) continue;
             int wid = it->second; pids.erase(it);
+            progress.erase(wid);
+            if (hung.count(wid)) {
+                hung.erase(wid);
+                char what[160]; snprintf(what, sizeof what, "the operation did not return within %.0f s (cases of this kind complete in milliseconds): non-termination", opt.case_timeout_s);
+                on_crash(sh->slot[wid], what);
+                if (sh->next_task.load() < ntasks) spawn(wid);
+                continue;
+            }
             bool crashed = WIFSIGNALED(st) || (WIFEXITED(st) && WEXITSTATUS(st) != 0);
             if (WIFSIGNALED(st) && WTERMSIG(st) == SIGKILL) {
                 // killed from outside (out-of-memory killer, operator): a resource limit of the exploration, not a verdict about the code
